@@ -21,7 +21,7 @@ def Tm.toStr : Tm → String
   | .sto0 => "S0"
   | .sstore s k v => s!"{s.toStr};SSTORE({k.toStr},{v.toStr})"
 
-def SymSt.toStr (nf : Tm → Tm) (S : SymSt) : String :=
-  s!"base={S.base} stack=[{" | ".intercalate (S.stk.map fun t => (nf t).toStr)}] mem={(nf S.mem).toStr} sto={(nf S.sto).toStr}"
+def SymSt.toStr (nf : Normaliser) (S : SymSt) : String :=
+  s!"base={S.base} stack=[{" | ".intercalate (S.stk.map fun t => (nf.w t).toStr)}] mem={(nf.m S.mem).toStr} sto={(nf.s S.sto).toStr}"
 
 end GasolVerif
